@@ -970,6 +970,7 @@ func runC20(b *runner.Batch) {
 	if b.Thorough() {
 		nops = 300
 	}
+	gone := map[int]bool{}
 	for i := 0; i < nops && b.NViolations() == 0; i++ {
 		r := b.Rng
 		switch k := r.IntN(20); {
@@ -994,7 +995,20 @@ func runC20(b *runner.Batch) {
 					ep = 0
 				}
 			}
-			e.estPut(ep, e.cids[ci], ci < 2, runner.Pick(r, e.nodes), r.IntN(6) != 0, int64(r.IntN(1000)))
+			if ci < 2 && !gone[ci] && r.IntN(25) == 0 {
+				// the container is removed: its estimations are not "older than the documented deltas" by that, they stay
+				// until the ticks that clean them up; new ones are refused (seeded change C20-9)
+				if dr := e.w.Invoke(e.w.Alpha(), e.cn, "delete", e.cids[ci], bytes.Repeat([]byte{3}, 64), []byte{}); dr.Halted() {
+					gone[ci] = true
+					b.Hit("container-with-estimations-removed")
+					e.estSweep(dr)
+				} else {
+					b.Inconclusive("container delete: " + dr.Fault)
+				}
+				b.Tx(1)
+				continue
+			}
+			e.estPut(ep, e.cids[ci], ci < 2 && !gone[ci], runner.Pick(r, e.nodes), r.IntN(6) != 0, int64(r.IntN(1000)))
 		case k < 16:
 			next := e.epoch + 1
 			if r.IntN(3) == 0 {
